@@ -1236,6 +1236,8 @@ class MemoryCache:
         # If the object is too big to fit in the cache, return immediately
         obj_size = self._estimate_object_size(result)
         if obj_size > self.memory_cache_bytes:
+            # Do not keep serving a previously cached value for this memento
+            self._evict(cache_key)
             return
 
         # "view busting"
